@@ -23,7 +23,7 @@ ASSUMPTIONS = ["read-only numpy arrays and immutable scalars / strings / tuples 
                "edit-and-reread step"]
 EXPLANATION = "Lean frame theorem over a heap of cells + verified disjointness checker + edit-and-reread on real objects"
 
-KINDS = ["mesh", "mesh_fcol", "mesh_vcol", "mesh_tex", "mesh_attr", "mesh_over", "box", "sphere", "cylinder", "capsule",
+KINDS = ["mesh", "mesh_fcol", "mesh_vcol", "mesh_tex", "mesh_pbr", "mesh_attr", "mesh_over", "box", "sphere", "cylinder", "capsule",
          "extrusion", "path2d", "path3d", "points", "scene", "voxel"]
 ROUTES = ["copy", "copy.copy", "deepcopy"]
 EDITS = ["vertex_inplace", "vertex_assign", "face_inplace", "transform", "color_inplace", "metadata_nested", "metadata_key",
@@ -68,6 +68,15 @@ def build(kind):
             img = Image.fromarray((np.arange(48).reshape(4, 4, 3) * 5 % 255).astype(np.uint8))
             uv = np.array(m.vertices)[:, :2] / 3.0
             m.visual = trimesh.visual.TextureVisuals(uv=uv, image=img)
+        elif kind == "mesh_pbr":
+            from PIL import Image
+            img = Image.fromarray((np.arange(48).reshape(4, 4, 3) * 7 % 255).astype(np.uint8))
+            uv = np.array(m.vertices)[:, :2] / 3.0
+            # boundary values: factors stored as exactly zero, a cut-off of zero, non-default flags
+            mat = trimesh.visual.material.PBRMaterial(name="m0", baseColorTexture=img, metallicFactor=0.0, roughnessFactor=0.0,
+                                                      alphaCutoff=0.0, doubleSided=True, emissiveFactor=[0.0, 0.5, 1.0],
+                                                      baseColorFactor=[10, 20, 30, 255])
+            m.visual = trimesh.visual.TextureVisuals(uv=uv, material=mat)
         elif kind == "mesh_attr":
             m.face_attributes["fa"] = np.arange(12) * 10
             m.vertex_attributes["va"] = np.arange(8) * 7.0
@@ -170,6 +179,14 @@ def observe(o, kind):
             r["uv"] = _arr(o.visual.uv)
             img = getattr(o.visual.material, "image", None)
             r["image"] = _arr(np.asarray(img)) if img is not None else None
+            mat = o.visual.material
+            pars = {}
+            for name in ("name", "metallicFactor", "roughnessFactor", "alphaCutoff", "alphaMode", "doubleSided", "emissiveFactor",
+                         "baseColorFactor", "glossiness", "ambient", "diffuse", "specular"):
+                if hasattr(mat, name):
+                    v = getattr(mat, name)
+                    pars[name] = None if v is None else (np.asarray(v).tolist() if np.ndim(v) else (v if isinstance(v, (str, bool)) else float(v)))
+            r["material"] = pars
         r["face_attributes"] = {k: _arr(v) for k, v in getattr(o, "face_attributes", {}).items()}
         r["vertex_attributes"] = {k: _arr(v) for k, v in getattr(o, "vertex_attributes", {}).items()}
         if hasattr(o, "primitive"):
@@ -281,7 +298,7 @@ def apply_edit(o, kind, edit, seed):
         if kind == "points":
             o.colors[0] = [9, 9, 9, 255]
             return True
-        if kind == "mesh_tex":
+        if kind in ("mesh_tex", "mesh_pbr"):
             o.visual.uv[0] += 0.25
             return True
     if edit == "metadata_nested" and isinstance(getattr(o, "metadata", None), dict) and "info" in o.metadata:
@@ -327,7 +344,7 @@ def run_case(c):
         compute(a, kind)
     if c["pre_edit"]:
         apply_edit(a, kind, "vertex_inplace", 0) or apply_edit(a, kind, "param", 0)
-    if c.get("paint") and kind.startswith("mesh") and kind != "mesh_tex":
+    if c.get("paint") and kind.startswith("mesh") and kind not in ("mesh_tex", "mesh_pbr"):
         # colours painted in place right before the copy, after the other colour kind was read
         if c["paint"] == "vertex_after_face_read":
             _ = a.visual.face_colors
